@@ -139,7 +139,7 @@ func genAliasing(o hreg.Opts, w *bufio.Writer, rng *rand.Rand, cfgs []preset) er
 			for k := 0; k < reps; k++ {
 				g := &generator{rng: rng, mode: gRand, budget: 300, overList: -1}
 				if k == 0 {
-					g.mode = gMin
+					g.mode = gDistinct // neighbouring same-typed fields differ: exchanged leaves cannot go unnoticed
 				}
 				b, _ := Encode(t, g.gen(t))
 				// struct -> view
@@ -149,6 +149,12 @@ func genAliasing(o hreg.Opts, w *bufio.Writer, rng *rand.Rand, cfgs []preset) er
 					if okd, unread := decodeAll(so, b); okd && unread == 0 {
 						if res, ok := callConv(reflect.ValueOf(obj), "View", spec); ok && res.Type().Implements(viewIface) && !res.IsNil() {
 							v := res.Interface().(view.View)
+							// the converted view must be the tree of the struct's own encoding: reported root of s.View()
+							// against the struct's bytes (judged by the Lean htr), not only against the view's own bytes
+							if root0, _, ok := viewState(v); ok {
+								o.Stats.Add("alias", "view-of-struct")
+								fmt.Fprintf(w, "st view-of-struct %s %s %s %s\n", e.Name, p.tok, root0, hexOrDash(b))
+							}
 							if _, ser1, ok := viewState(v); ok {
 								scribble(reflect.ValueOf(obj), 0)
 								emitAlias(w, o, "alias-struct-to-view", e.Name, p.tok, v, ser1)
